@@ -542,6 +542,15 @@ pub fn gen_cfgrun(seed: u64, n: usize) -> Vec<Scenario> {
         sc.net.hop_delay_us = 1_000;
         sc.max_rounds = rng.random_range(2..=3);
         sc.max_recv_calls = 200_000;
+        if sc.max_ttl >= 254 && rng.random_bool(0.5) {
+            // nothing answers beyond the first hops and the window is wide open: the whole ttl range is walked
+            sc.topo.paths[0].dist = 0;
+            sc.first_ttl = 1;
+            sc.max_inflight = 255;
+            sc.min_round_us = 0;
+            sc.max_round_us = 20_000_000;
+            sc.read_timeout_us = 10_000;
+        }
         if rng.random_range(0..8) == 0 {
             // short rounds against a long connect timeout and a target that never answers: TCP sockets of
             // many rounds are pending at the same time
